@@ -149,6 +149,17 @@ def _(p, ir, st_, ex, k1, k2, k3, ctx):
     return (lambda: S.delete_pass(p)), {}
 
 
+@op("rename", 1)
+def _(p, ir, st_, ex, k1, k2, k3, ctx):
+    nm = f"{ir.name}_r{ctx.fresh()}"
+    return (lambda: S.rename(p, nm)), {"name": nm}
+
+
+@op("make_instr", 1)
+def _(p, ir, st_, ex, k1, k2, k3, ctx):
+    return (lambda: S.make_instr(p, f"/* instr {k1} */", "")), {"k": k1}
+
+
 @op("insert_pass", 1)
 def _(p, ir, st_, ex, k1, k2, k3, ctx):
     s = _pick(st_, k1)
@@ -382,7 +393,8 @@ def _(p, ir, st_, ex, k1, k2, k3, ctx):
     n = 1 + k2 % 2
     c = cursor_at(p, s.path)
     keep = bool(k3 % 2)
-    return (lambda: S.autolift_alloc(p, c, n_lifts=n, mode="row", size=None, keep_dims=keep)), {"buf": str(s.node.name), "n": n, "keep_dims": keep}
+    mode = ["row", "col"][(k3 // 2) % 2]
+    return (lambda: S.autolift_alloc(p, c, n_lifts=n, mode=mode, size=None, keep_dims=keep)), {"buf": str(s.node.name), "n": n, "mode": mode, "keep_dims": keep}
 
 
 @op("sink_alloc", 3, group="storage")
@@ -651,7 +663,10 @@ def _(p, ir, st_, ex, k1, k2, k3, ctx):
     if not s:
         return None
     c = cursor_at(p, s.path)
-    hi = (["2", "3", "1"] + _scope_names(s, ("size",)))[k2 % (3 + len(_scope_names(s, ("size",))))]
+    szs = _scope_names(s, ("size",))
+    idxs = _scope_names(s, ("index",))
+    his = ["2", "3", "1"] + szs + [f"{n} / 4" for n in szs] + [f"{n} - 1" for n in szs] + idxs
+    hi = his[k2 % len(his)]
     guard = k3 % 3 == 0
     nm = NAME_POOL[(k3 // 3) % len(NAME_POOL)]
     return (lambda: S.add_loop(p, c, nm, hi, guard=guard)), {"at": path_str(s.path), "hi": hi, "guard": guard, "name": nm}
@@ -719,7 +734,10 @@ def _(p, ir, st_, ex, k1, k2, k3, ctx):
     elif ty == "bool":
         rhs = ["True", "False"][k3 % 2]
     else:
-        rhs = ["0.0", "2.0"][k3 % 2]
+        # (literal data values hit an internal 'bad case' in the effect lowering; scalar
+        #  variables are the form the analysis supports)
+        scal = [str(a.name) for a in ir.args if a.type.is_real_scalar()]
+        rhs = scal[k3 % len(scal)] if scal and k3 % 4 else ["0.0", "2.0"][k3 % 2]
     c = cursor_at(p, s.path)
     g = c.before() if (k3 // 3) % 2 == 0 else c.after()
     return (lambda: S.write_config(p, g, cfg, fld, rhs)), {"at": path_str(s.path), "cfg": f"{cn}.{fld}", "rhs": rhs}
